@@ -40,6 +40,7 @@ stage S(
     in  bool     flag,
     in  ST[]     sts,
     in  map      um,
+    in  map<ST>  ms,
     out int      o,
     src comp     "bin",
 )
@@ -143,6 +144,7 @@ func H_C16_invocationLoop(n int, flagKind int, splitKind int) {
 		"flag": json.RawMessage(flag),
 		"sts":  c16Cat([]byte(`[{"a":`), sa, []byte(`,"b":`), sb, []byte(`}]`)),
 		"um":   c16Cat([]byte(`{"x":`), k, []byte(`}`)),
+		"ms":   c16Cat([]byte(`{"w":{"a":`), sa, []byte(`,"b":`), sb, []byte(`}}`)),
 	}
 	// mapped (split) arguments: none, listed in declaration order (m, arr), or
 	// listed the other way round
@@ -234,4 +236,91 @@ func H_C16_invocationLoop(n int, flagKind int, splitKind int) {
 	verifAssert(len(data.Args) == len(args), "C16: no argument is invented")
 	// the text is a fixed point
 	verifAssert(ast2.Format() == text, "C16/C09: the generated call text is a fixed point of format")
+}
+
+// ---- mapped (split) arguments of every parameter shape ----
+
+var c16SplitParams = []struct {
+	name  string
+	value string // one value of the parameter's type
+}{
+	{"i", `7`},
+	{"st", `{"a":1,"b":2}`},
+	{"m", `{"key":3}`},
+	{"arr", `[4,5]`},
+	{"sts", `[{"a":6,"b":7}]`},
+	{"um", `{"x":8}`},
+	{"ms", `{"r2":{"a":3,"b":4},"run 1":{"a":1,"b":2}}`},
+	{"s", `"text"`},
+}
+
+// H_C16_splitShapes(p, over): parameter p of the stage is mapped: the
+// invocation gives {"split": [v, v']} (over = 0: an array of values, the
+// second one null or empty where the type allows) or {"split": {"k": v}}
+// (over = 1: a map of values); every other argument is plain.
+//
+//	C16: the call text built from the invocation compiles against the stage
+//	     and converts back to the same argument values with the same argument
+//	     mapped.
+func H_C16_splitShapes(pi, over int) {
+	fx := c16Callable()
+	sp := c16SplitParams[pi]
+	args := MarshalerMap{}
+	raw := map[string]json.RawMessage{}
+	for _, q := range c16SplitParams {
+		raw[q.name] = json.RawMessage(q.value)
+	}
+	raw["flag"] = json.RawMessage("true")
+	if over == 0 {
+		raw[sp.name] = json.RawMessage(`{"split":[` + sp.value + `,null]}`)
+	} else {
+		raw[sp.name] = json.RawMessage(`{"split":{"k 2":null,"k1":` + sp.value + `}}`)
+	}
+	for k, v := range raw {
+		args[k] = v
+	}
+	ast, err := BuildCallAst("S", args, []string{sp.name}, fx.callable, fx.lookup, nil)
+	verifAssert(err == nil, "C16: well-formed invocation data with a mapped argument converts to a call")
+	if err != nil {
+		return
+	}
+	verifCover("mapped call built")
+	text := ast.Format()
+	// the generated call compiles against the stage it calls
+	var parser syntax.Parser
+	// (the text starts with an @include of the stage's file: here the stage
+	// declaration itself takes its place)
+	callText := text
+	for len(callText) > 0 && (callText[0] == '@' || callText[0] == '\n') {
+		nl := bytes.IndexByte([]byte(callText), '\n')
+		if nl < 0 {
+			break
+		}
+		callText = callText[nl+1:]
+	}
+	_, _, _, err = parser.ParseSourceBytes([]byte(c16Src+"\n"+callText), "/m/call.mro", nil, false)
+	verifAssert(err == nil, "C16: the call text generated from invocation data compiles against the stage")
+	if err != nil {
+		return
+	}
+	// and back (as InvocationDataFromSource does for an uncompiled call)
+	ast2, err := parser.UncheckedParse([]byte(text), "/m/call.mro")
+	verifAssert(err == nil, "C16: the generated call text parses")
+	if err != nil {
+		return
+	}
+	data, err := BuildDataForAst(ast2)
+	verifAssert(err == nil && data != nil, "C16: the call text converts back to invocation data")
+	if err != nil || data == nil {
+		return
+	}
+	verifCover("mapped round trip done")
+	verifAssert(len(data.SplitArgs) == 1 && data.SplitArgs[0] == sp.name, "C16: the mapped (split) status of every argument survives the round trip")
+	for key, want := range raw {
+		got, ok := data.Args[key]
+		verifAssert(ok, "C16: every argument survives the round trip")
+		if ok {
+			verifAssert(verifBytesEq(c16Strip(got), c16Strip(want)), "C16: invocation JSON -> call text -> invocation JSON gives back every argument value, mapped arguments included")
+		}
+	}
 }
